@@ -72,7 +72,7 @@ type Pkt struct {
 }
 
 // remaining-length boundaries the generator aims the packet body at
-var targets = []int{0, 1, 2, 10, 126, 127, 128, 129, 1000, 16382, 16383, 16384, 16385, 40000, 65000, 65529}
+var targets = []int{0, 1, 2, 10, 126, 127, 128, 129, 1000, 16382, 16383, 16384, 16385, 40000, 65000, 65529, 65530, 65531, 65533, 65535, 65536, 65537}
 
 func genStr(t *rapid.T, label string, max int) Str {
 	n := rapid.SampledFrom([]int{0, 0, 1, 2, 5, 17, 100, 127, 128, 300, 5000}).Draw(t, label+"len")
@@ -512,7 +512,7 @@ const maxSize = 65536
 func run(p Pkt) vkit.Result {
 	want := fieldsK(p)
 	body := bodyLen(p)
-	if body+5 > maxSize-1 {
+	if body > maxSize { // the size limit of the codec (MaxMessageSize) bounds the packet body; anything up to it must be handled
 		return vkit.Result{Excluded: true, Labels: []string{"over-64KiB"}}
 	}
 	var be bytes.Buffer
